@@ -50,7 +50,7 @@ Qed.
 Lemma build_map_no_panic : forall kvs acc, build_map kvs acc <> PPanic.
 Proof.
   induction kvs as [|kv kvs IH]; intros acc; simpl; [discriminate|].
-  pose proof (key_outcome_no_panic kv). destruct (key_outcome kv); try congruence. apply IH.
+  pose proof (key_outcome_no_panic kv). destruct (key_outcome kv); try congruence; apply IH.
 Qed.
 
 (* buildSchedule returns a value or an error for every YAML value of the schedule field *)
